@@ -20,6 +20,12 @@ package c11
 // Observables per op: accept / error class, and afterwards the Prevotes, Votes and
 // FeederDelegations stores and Params.VotePeriod, canonicalised (addresses -> fixed small ids,
 // hash strings / salts / rate strings / parsed tuples -> ids in first-appearance order).
+// Salts and rate strings are BYTE STRINGS: next to the plain ones the generator draws strings with
+// leading / trailing / inner white space (blank, tab, newline, CR, VT, FF, NBSP, NEL), upper / lower case,
+// NFC / NFD spellings, NUL and zero-width characters, invalid UTF-8 ("salt_hex"), and reveals a committed
+// string by a NON-IDENTICAL variant that some normalisation (TrimSpace, case fold, NFC, …) would map to the
+// same string — such a reveal must be refused, the byte-exact reveal accepted.  Two strings get the same
+// id only if they are byte-identical.
 // The reference hash of a reveal is computed HERE with crypto/sha256, not with the repo's
 // GetAggregateVoteHash; "parses" / "all pairs whitelisted" are evaluated with the repo's parser and
 // the WhitelistedPairs store before the message is delivered.
@@ -34,6 +40,7 @@ import (
 	"strings"
 	"testing"
 	"time"
+	"unicode/utf8"
 
 	sdkmath "cosmossdk.io/math"
 	"github.com/NibiruChain/collections"
@@ -72,6 +79,7 @@ type c11Op struct {
 	HashMode string   `json:"hash_mode,omitempty"` // honest | upper | noval | lit
 	HashFor  int      `json:"hash_for,omitempty"`
 	Salt     string   `json:"salt,omitempty"`
+	SaltHex  string   `json:"salt_hex,omitempty"` // hex of the salt bytes when they are not valid UTF-8 (overrides salt)
 	Rates    string   `json:"rates,omitempty"`
 	Lit      string   `json:"lit,omitempty"`
 	Delegate int      `json:"delegate,omitempty"`
@@ -211,6 +219,25 @@ func (w *c11World) addrID(bz []byte) int {
 	return 99
 }
 
+// salt returns the exact salt bytes of an op.
+func (op c11Op) salt() string {
+	if op.SaltHex != "" {
+		if bz, err := hex.DecodeString(op.SaltHex); err == nil {
+			return string(bz)
+		}
+	}
+	return op.Salt
+}
+
+// withSalt stores a byte string as the op's salt so that it survives the JSON round trip of a replay.
+func (op c11Op) withSalt(s string) c11Op {
+	op.Salt, op.SaltHex = s, ""
+	if !utf8.ValidString(s) {
+		op.Salt, op.SaltHex = "", hex.EncodeToString([]byte(s))
+	}
+	return op
+}
+
 func refHash(salt, rates string, val sdk.ValAddress) string {
 	sum := sha256.Sum256([]byte(salt + ":" + rates + ":" + val.String()))
 	return hex.EncodeToString(sum[:20])
@@ -315,11 +342,11 @@ func (w *c11World) oracleMsg(ctx sdk.Context, op c11Op, o *c11Obs) sdk.Msg {
 		val := sdk.ValAddress(w.acc[op.HashFor%c11NAddr])
 		switch op.HashMode {
 		case "honest":
-			h = refHash(op.Salt, op.Rates, val)
+			h = refHash(op.salt(), op.Rates, val)
 		case "upper":
-			h = strings.ToUpper(refHash(op.Salt, op.Rates, val))
+			h = strings.ToUpper(refHash(op.salt(), op.Rates, val))
 		case "noval":
-			sum := sha256.Sum256([]byte(op.Salt + ":" + op.Rates))
+			sum := sha256.Sum256([]byte(op.salt() + ":" + op.Rates))
 			h = hex.EncodeToString(sum[:20])
 		default:
 			h = op.Lit
@@ -333,9 +360,9 @@ func (w *c11World) oracleMsg(ctx sdk.Context, op c11Op, o *c11Obs) sdk.Msg {
 		return msg
 	case "vote":
 		val := sdk.ValAddress(w.acc[op.Val%c11NAddr])
-		o.SaltID = w.id(w.salts, op.Salt)
+		o.SaltID = w.id(w.salts, op.salt())
 		o.RatesID = w.id(w.rates, op.Rates)
-		o.RevealID = w.id(w.ids, refHash(op.Salt, op.Rates, val))
+		o.RevealID = w.id(w.ids, refHash(op.salt(), op.Rates, val))
 		if tuples, e := otypes.ParseExchangeRateTuples(op.Rates); e == nil {
 			o.Parses = true
 			s, e2 := tuples.ToString()
@@ -350,7 +377,7 @@ func (w *c11World) oracleMsg(ctx sdk.Context, op c11Op, o *c11Obs) sdk.Msg {
 				}
 			}
 		}
-		msg := &otypes.MsgAggregateExchangeRateVote{Salt: op.Salt, ExchangeRates: op.Rates, Feeder: w.bech(op.Feeder, false), Validator: w.bech(op.Val, true)}
+		msg := &otypes.MsgAggregateExchangeRateVote{Salt: op.salt(), ExchangeRates: op.Rates, Feeder: w.bech(op.Feeder, false), Validator: w.bech(op.Val, true)}
 		o.SignerOK = len(msg.GetSigners()) == 1 && msg.GetSigners()[0].Equals(w.acc[op.Feeder%c11NAddr])
 		return msg
 	case "delegate":
@@ -488,6 +515,124 @@ var c11RatesOdd = []string{
 
 var c11Salts = []string{"1", "ab", "7f3", "1:2", "zzzz", ""}
 
+// ---- byte-string families: strings that some normalisation maps to one string
+
+// white space as strings.TrimSpace / unicode.IsSpace see it (NBSP and NEL take two bytes)
+var c11WS = []string{" ", "\t", "\n", "\r", "\v", "\f", "\u00a0", "\u0085", " ", "\n"}
+
+// salts the byte-level variants start from (all of 1..4 bytes, as ValidateBasic demands)
+var c11SaltBases = []string{"ab", "a", "7f", "Ab", "zz", "\u00e9", "e\u0301", "a b", "Q", "ab ", " ab", "\tx", "x\n", " ", "  ", "\n", "a\x00", "\u00a0a"}
+
+func c11Trim(s string) string { return strings.TrimSpace(s) }
+
+// c11SaltVariant returns a salt of 1..4 bytes that is NOT byte-identical to s but equal to it under some
+// normalisation a "hygiene" change could apply: white-space trimming, case folding, NFC/NFD, dropping NUL or
+// zero-width characters, collapsing inner blanks.  ("" when it finds none.)
+func c11SaltVariant(r *Rng, s string) string {
+	ok := func(t string) bool { return t != s && len(t) >= 1 && len(t) <= 4 }
+	for try := 0; try < 12; try++ {
+		var t string
+		switch r.Pick(6, 5, 2, 5, 3, 2, 2, 2, 1, 1) {
+		case 0:
+			t = s + c11WS[r.Intn(len(c11WS))]
+		case 1:
+			t = c11WS[r.Intn(len(c11WS))] + s
+		case 2:
+			t = c11WS[r.Intn(len(c11WS))] + s + c11WS[r.Intn(len(c11WS))]
+		case 3: // the other direction: the committed salt carries white space, the reveal does not
+			t = c11Trim(s)
+			if t == s {
+				t = strings.TrimRight(s, "\x00")
+			}
+		case 4:
+			t = strings.ToUpper(s)
+			if t == s {
+				t = strings.ToLower(s)
+			}
+		case 5:
+			t = strings.ReplaceAll(s, "\u00e9", "e\u0301")
+			if t == s {
+				t = strings.ReplaceAll(s, "e\u0301", "\u00e9")
+			}
+		case 6:
+			t = s + "\x00"
+		case 7:
+			t = strings.ReplaceAll(s, " ", "  ")
+			if t == s || len(t) > 4 {
+				t = strings.ReplaceAll(s, " ", "")
+			}
+		case 8:
+			t = s + "\u200b"
+		case 9: // trimmed on one side only
+			t = strings.TrimLeft(s, " \t\n")
+			if t == s {
+				t = strings.TrimRight(s, " \t\n")
+			}
+		}
+		if ok(t) {
+			return t
+		}
+	}
+	if len(s) < 4 {
+		return s + " "
+	}
+	return ""
+}
+
+// c11RatesBytes: a rate string that differs from s only in bytes a normalisation would remove or fold
+// (most of them do not parse; the ones that do parse to the same tuples).
+func c11RatesBytes(r *Rng, s string) string {
+	for try := 0; try < 8; try++ {
+		var t string
+		switch r.Pick(4, 3, 2, 2, 2, 2, 2, 1, 1) {
+		case 0:
+			t = s + c11WS[r.Intn(len(c11WS))]
+		case 1:
+			t = c11WS[r.Intn(len(c11WS))] + s
+		case 2:
+			t = s + "\r\n"
+		case 3:
+			t = c11Trim(s)
+		case 4:
+			t = strings.ToUpper(s)
+		case 5:
+			t = strings.ReplaceAll(s, ",", ", ")
+		case 6: // a leading zero / plus sign in the first rate
+			if i := strings.Index(s, ","); i >= 0 && i+1 < len(s) && s[i+1] != '-' {
+				t = s[:i+1] + []string{"0", "+", "00"}[r.Intn(3)] + s[i+1:]
+			}
+		case 7:
+			t = strings.ReplaceAll(s, "|", " | ")
+		case 8:
+			t = strings.ReplaceAll(s, "(", "( ")
+		}
+		if t != "" && t != s {
+			return t
+		}
+	}
+	return s + " "
+}
+
+// c11PickSalt: a salt for a new commitment; about a third are not plain ASCII tokens.
+func c11PickSalt(r *Rng) string {
+	switch r.Pick(12, 4, 3, 1) {
+	case 1:
+		return c11SaltBases[r.Intn(len(c11SaltBases))]
+	case 2:
+		if t := c11SaltVariant(r, c11SaltBases[r.Intn(10)]); t != "" {
+			return t
+		}
+	case 3: // arbitrary bytes, possibly not UTF-8
+		n := r.Range(1, 4)
+		bz := make([]byte, n)
+		for i := range bz {
+			bz[i] = []byte{0x20, 0x09, 0x0a, 0x61, 0x41, 0x00, 0xff, 0xc3, 0xa9, 0x7f, 0x3a, 0x25, 0xe2, 0x80}[r.Intn(14)]
+		}
+		return string(bz)
+	}
+	return c11Salts[r.Pick(5, 3, 2, 2, 1, 1)]
+}
+
 // c11Respell returns the other spelling of a rate string from the two tables ("" if it has none).
 func c11Respell(s string) string {
 	for k := range c11Rates {
@@ -565,10 +710,11 @@ func genC11Case(r *Rng) c11Input {
 			}
 			f := pickFeeder(v)
 			if sh := shadow[v]; sh.has && (uint64(sh.h)/vp < uint64(h)/vp || r.Chance(1, 8)) && r.Chance(9, 10) {
-				op := c11Op{Kind: "vote", H: h, Val: v, Feeder: f, Salt: sh.salt, Rates: sh.rates}
-				switch r.Pick(30, 2, 2, 1, 1) {
+				op := c11Op{Kind: "vote", H: h, Val: v, Feeder: f, Rates: sh.rates}.withSalt(sh.salt)
+				again := false
+				switch r.Pick(30, 2, 2, 1, 1, 7, 2) {
 				case 1:
-					op.Salt = c11Salts[r.Intn(len(c11Salts))]
+					op = op.withSalt(c11Salts[r.Intn(len(c11Salts))])
 				case 2:
 					if t := c11Respell(sh.rates); t != "" {
 						op.Rates = t
@@ -577,12 +723,23 @@ func genC11Case(r *Rng) c11Input {
 					op.Rates = c11Rates[r.Intn(len(c11Rates))]
 				case 4:
 					op.Rates = c11RatesOdd[r.Intn(len(c11RatesOdd))]
+				case 5: // a non-identical byte variant of the committed salt; often followed by the exact reveal
+					if t := c11SaltVariant(r, sh.salt); t != "" {
+						op = op.withSalt(t)
+						again = r.Chance(2, 3)
+					}
+				case 6:
+					op.Rates = c11RatesBytes(r, sh.rates)
+					again = r.Chance(1, 2)
 				}
 				in.Ops = append(in.Ops, op)
+				if again {
+					in.Ops = append(in.Ops, c11Op{Kind: "vote", H: h, Val: v, Feeder: f, Rates: sh.rates}.withSalt(sh.salt))
+				}
 			}
 			if r.Chance(4, 5) {
 				op := c11Op{Kind: "prevote", H: h, Val: v, Feeder: f, HashFor: v, HashMode: "honest",
-					Salt: c11Salts[r.Pick(5, 3, 2, 2, 1, 1)], Rates: c11Rates[r.Intn(len(c11Rates))]}
+					Rates: c11Rates[r.Intn(len(c11Rates))]}.withSalt(c11PickSalt(r))
 				if r.Chance(1, 6) { // commit to the long (normalised) spelling
 					op.Rates = c11Respell(op.Rates)
 				}
@@ -590,7 +747,7 @@ func genC11Case(r *Rng) c11Input {
 					op.HashMode = "upper"
 				}
 				in.Ops = append(in.Ops, op)
-				shadow[v] = c11Shadow{salt: op.Salt, rates: op.Rates, h: h, has: true}
+				shadow[v] = c11Shadow{salt: op.salt(), rates: op.Rates, h: h, has: true}
 			}
 		}
 		nm := r.Pick(5, 4, 3, 1)
@@ -599,7 +756,7 @@ func genC11Case(r *Rng) c11Input {
 			case 0: // prevote
 				v := pickVal()
 				op := c11Op{Kind: "prevote", H: h, Val: v, Feeder: pickFeeder(v), HashFor: v, HashMode: "honest",
-					Salt: c11Salts[r.Pick(5, 3, 2, 2, 1, 1)], Rates: c11Rates[r.Intn(len(c11Rates))]}
+					Rates: c11Rates[r.Intn(len(c11Rates))]}.withSalt(c11PickSalt(r))
 				if r.Chance(1, 10) {
 					op.Rates = c11RatesOdd[r.Intn(len(c11RatesOdd))]
 				}
@@ -615,7 +772,7 @@ func genC11Case(r *Rng) c11Input {
 					op.Lit = []string{"zz", "abc", "00", "deadbeef", ""}[r.Intn(5)]
 				}
 				in.Ops = append(in.Ops, op)
-				shadow[v] = c11Shadow{salt: op.Salt, rates: op.Rates, h: h, has: true}
+				shadow[v] = c11Shadow{salt: op.salt(), rates: op.Rates, h: h, has: true}
 			case 1: // vote
 				v := pickVal()
 				if r.Chance(3, 4) { // prefer a validator with an outstanding prevote
@@ -628,10 +785,17 @@ func genC11Case(r *Rng) c11Input {
 				if !sh.has {
 					sh = c11Shadow{salt: "1", rates: c11Rates[0]}
 				}
-				op.Salt, op.Rates = sh.salt, sh.rates
-				switch r.Pick(16, 2, 2, 1, 1) {
+				op.Rates = sh.rates
+				op = op.withSalt(sh.salt)
+				switch r.Pick(16, 2, 2, 1, 1, 4, 1) {
+				case 5:
+					if t := c11SaltVariant(r, sh.salt); t != "" {
+						op = op.withSalt(t)
+					}
+				case 6:
+					op.Rates = c11RatesBytes(r, sh.rates)
 				case 1:
-					op.Salt = c11Salts[r.Intn(len(c11Salts))]
+					op = op.withSalt(c11Salts[r.Intn(len(c11Salts))])
 				case 2: // textually different, same tuples
 					if t := c11Respell(sh.rates); t != "" {
 						op.Rates = t
@@ -713,10 +877,10 @@ func genC11Case(r *Rng) c11Input {
 func c11Openers() []c11Input {
 	R := c11Rates[0]
 	pv := func(h int64, f, v int, salt, rates string) c11Op {
-		return c11Op{Kind: "prevote", H: h, Feeder: f, Val: v, HashFor: v, HashMode: "honest", Salt: salt, Rates: rates}
+		return c11Op{Kind: "prevote", H: h, Feeder: f, Val: v, HashFor: v, HashMode: "honest", Rates: rates}.withSalt(salt)
 	}
 	vt := func(h int64, f, v int, salt, rates string) c11Op {
-		return c11Op{Kind: "vote", H: h, Feeder: f, Val: v, Salt: salt, Rates: rates}
+		return c11Op{Kind: "vote", H: h, Feeder: f, Val: v, Rates: rates}.withSalt(salt)
 	}
 	end := func(h int64) c11Op { return c11Op{Kind: "end", H: h} }
 	return []c11Input{
@@ -749,6 +913,18 @@ func c11Openers() []c11Input {
 			{Kind: "maxvals", H: 7, N: 100}, {Kind: "unjail", H: 7, Val: 1},
 			vt(7, 5, 0, "1", R), pv(7, 5, 0, "1", R), pv(7, 6, 1, "1", R), pv(7, 7, 2, "1", R), end(7),
 			vt(8, 5, 0, "1", R), vt(8, 6, 1, "1", R)}},
+		// byte-exact reveals: commitments over salts with / without surrounding white space, in another case, in
+		// another Unicode normal form, with a NUL, not UTF-8; every reveal by a non-identical variant is refused,
+		// then the byte-exact reveal is accepted; rate strings with a trailing newline / blank
+		{VP0: 2, NVals: 3, Ops: []c11Op{
+			pv(2, 0, 0, "ab", R), pv(2, 1, 1, "ab ", R), pv(3, 2, 2, " ", R), end(3),
+			vt(4, 0, 0, "ab ", R), vt(4, 0, 0, " ab", R), vt(4, 0, 0, "ab\n", R), vt(4, 0, 0, "AB", R), vt(4, 0, 0, "ab", R+"\n"), vt(4, 0, 0, "ab", R),
+			vt(4, 1, 1, "ab", R), vt(4, 1, 1, "ab\t", R), vt(4, 1, 1, "ab ", " "+R), vt(4, 1, 1, "ab ", R),
+			vt(4, 2, 2, "", R), vt(4, 2, 2, "  ", R), vt(4, 2, 2, "\u00a0", R), vt(4, 2, 2, " ", R),
+			pv(4, 0, 0, "\u00e9", R), pv(4, 1, 1, "a\x00", R), pv(5, 2, 2, "\xff\xc3", R), end(5),
+			vt(6, 0, 0, "e\u0301", R), vt(6, 0, 0, "\u00c9", R), vt(6, 0, 0, "\u00e9", R),
+			vt(6, 1, 1, "a", R), vt(6, 1, 1, "a\x00", R),
+			vt(7, 2, 2, "\xff", R), vt(7, 2, 2, "\xff\xc3 ", R), vt(7, 2, 2, "\xff\xc3", R)}},
 		// copy-cat commitment, unbonded validator, VotePeriod edit between prevote and vote
 		{VP0: 5, NVals: 3, Ops: []c11Op{
 			pv(7, 0, 0, "1", R), {Kind: "prevote", H: 7, Feeder: 1, Val: 1, HashFor: 0, HashMode: "honest", Salt: "1", Rates: R},
